@@ -217,6 +217,7 @@ def run_world(name, repo="/repo", tier="quick", seed=0, timeout=600):
     except (ExtractError, worldgen.WorldError) as e:
         res["reason"] = f"extraction: {e}"
         return res
+    external |= {f["id"] for f in meta["functions"] if f.get("external")}
     res["external"] = sorted(external)
     res["functions"] = [f for f in meta["functions"] if not f.get("shadow")]
     shadow = {f["id"] for f in meta["functions"] if f.get("shadow")}
@@ -319,7 +320,7 @@ def run_world(name, repo="/repo", tier="quick", seed=0, timeout=600):
     # a function with any failure: its other obligations are not established by this run either, but Verus
     # reports each failed clause separately (--multiple-errors), so the remaining ones stay discharged.
     for fid in external:
-        all_und.append(dict(msg="body contains a construct outside the Verus dialect; function left unverified (external_body)", fn=fid, reason="dialect"))
+        all_und.append(dict(msg="body contains a construct outside the Verus dialect (" + meta.get("auto_external", {}).get(fid, "rejected by Verus' front end") + "); function left unverified (external_body)", fn=fid, reason="dialect"))
     for u in all_und:
         fn = u.get("fn")
         if fn:
